@@ -13,9 +13,11 @@ SPECS = [
 
 
 def check(run):
-    run.functions += ['javadoc::find_content_string (%s)' % src_line('src/javadoc.rs', 'fn find_content_string')]
+    run.functions += ['javadoc::find_content_string (%s)' % src_line('src/javadoc.rs', 'fn find_content_string'), 'the get_javadoc(input, p0) call of every documentable grammar action (generated wrappers)']
     run.bounds += ['comment body <= 2 (quick) / 3, 5 (thorough) characters over 8 classes (space, LF, CR, TAB, ASCII letter, 2-, 3-, 4-byte code point); 4 prefixes; 2 separators from 6 forms']
     run.outside += ['parse_javadoc (three Regex::new per call): decoration removal, line joining, @tag splitting are not decided',
-                    'which grammar production passes which start offset: decided in C04 (obligation doc-scan-start, engine A)']
+                    'the regex-based normalisation of the comment body']
     run.extra['explanation'] = 'Kani/CBMC over the real backwards state machine with the comment text symbolic; native sweep of 247 texts (accented, CJK, emoji) confirms.'
     ksupport.decide(run, 'C18', SPECS, {'javadoc': native.sweep_javadoc})
+    import c04
+    c04.docscan_obligation(run)
